@@ -92,6 +92,21 @@ func c12Gen(class string, seed uint64, tier string) *vfScenario {
 				sc.Ops[i].A = int64([]int{3, -1, 7}[rng.IntN(3)])
 			}
 		}
+		if class == "hist-os" && rng.IntN(3) == 0 && len(sc.Ops) > 0 {
+			// somebody else renames the open file (and perhaps puts another one in its place): an open File, like an
+			// open os.File, goes on referring to the file it opened
+			at := rng.IntN(len(sc.Ops))
+			ops := append([]vfOp{}, sc.Ops[:at]...)
+			ops = append(ops, vfOp{K: "oobmove", A: int64(rng.IntN(2))})
+			for _, op := range sc.Ops[at:] {
+				if op.K == "writeto" {
+					// documented: without UseFstat, WriteTo sizes its transfer by a STAT of the path
+					op = vfOp{K: "seek", Off: int64(rng.IntN(5)) - 2, A: 2}
+				}
+				ops = append(ops, op)
+			}
+			sc.Ops = ops
+		}
 	}
 	return sc
 }
@@ -161,6 +176,7 @@ func c12History(r *vfRun) {
 	}
 	var mismatch, msig string
 	closed := false
+	moved, invalid := false, false
 	closeSeq := -1
 	var handle string
 	tk := vfSpawnTask(sim, 0, len(prog), func(i int) {
@@ -168,6 +184,22 @@ func c12History(r *vfRun) {
 			return
 		}
 		op := prog[i]
+		if op.K == "oobmove" {
+			if v.kind == 0 && v.root != "" && !moved {
+				moved = true
+				os.Rename(v.root+"/f", v.root+"/f.moved")
+				if op.A != 0 {
+					os.WriteFile(v.root+"/f", make([]byte, len(ref.data)+3), 0o644)
+				}
+				v.served = func() []byte { b, _ := os.ReadFile(v.root + "/f.moved"); return b }
+				sim.count("fault.file_renamed_under_open_handle")
+			}
+			return
+		}
+		if moved && op.K == "writeto" && sc.cfg("fstat", 0) == 0 {
+			invalid = true // (a shrunk scenario) see the generator: this call is documented to go by the path
+			return
+		}
 		if op.K == "setext" {
 			f := env.file(0)
 			err := f.SetExtendedData("x", []StatExtended{{ExtType: "a@b", ExtData: "c"}})
@@ -222,6 +254,10 @@ func c12History(r *vfRun) {
 	}
 	if !tk.finished() {
 		r.fail("C12/call-never-returned", "liveness", "history did not finish (steps=%d stuck=%v): blocked %v", sim.steps, sim.stuck, vfBubbleGoroutines())
+		return
+	}
+	if invalid {
+		r.res.Skipped = "invalid-program"
 		return
 	}
 	if mismatch != "" {
